@@ -9,7 +9,7 @@ const storeRule = "random operation histories (add/get/latest/list/seen/rm/purge
 func init() {
 	register("C07", func(c *core.Ctx) {
 		c.Res.Rule = storeRule
-		runStoreProfile(c, storeProfile{name: "c07", histories: [2]int{500, 12000}, maxOps: 40, caps: []int{0, 0, 0, 3}, maxkbs: []int{0, 0, 0, 4}, reopenPct: 30, bigPct: 5})
+		runStoreProfile(c, storeProfile{name: "c07", histories: [2]int{500, 12000}, maxOps: 40, caps: []int{0, 0, 0, 3, 1}, maxkbs: []int{0, 0, 0, 4}, reopenPct: 30, bigPct: 5})
 		if f, ok := extra["C07"]; ok {
 			f(c)
 		}
@@ -23,7 +23,7 @@ func init() {
 	})
 	register("C10", func(c *core.Ctx) {
 		c.Res.Rule = storeRule + "; profile with frequent close/re-open of the file store (file.New on the same path) anywhere in the history"
-		runStoreProfile(c, storeProfile{name: "c10", histories: [2]int{400, 10000}, maxOps: 40, caps: []int{0, 0, 2, 4}, maxkbs: []int{0}, reopenPct: 100, bigPct: 5})
+		runStoreProfile(c, storeProfile{name: "c10", histories: [2]int{400, 10000}, maxOps: 40, caps: []int{0, 0, 2, 4, 1}, maxkbs: []int{0}, reopenPct: 100, bigPct: 5})
 		if f, ok := extra["C10"]; ok {
 			f(c)
 		}
